@@ -10,6 +10,8 @@ RULE = ('formulas of the documented grammar: (i) every pair of binary-operator s
         '`a o1 b o2 c`, every spelling after `~`/`!` and after/before a quantifier (exhaustive); '
         '(ii) random syntax trees to depth 5 printed with minimal and with redundant parentheses, '
         'all spellings, constants, ite, quantifiers, \\S renaming, @n references of both signs; '
+        '(iii) every \\S list of two or three pairs over the variables (swaps, rotations, chains) in both '
+        'written orders over held nodes and formulas (simultaneous substitution); '
         'dd.bdd and dd.autoref; every order of 3 variables; non-trivial = non-constant result')
 EXHAUSTIVE = {'quick': False, 'thorough': False}
 ASSUMES = ['comments and white space are handled by the regex lexer: exercised on the implementation only']
@@ -194,7 +196,8 @@ def pairs_stream(ctx, order):
 
 
 def random_stream(ctx, order, ntrees, autoref):
-    M = Mgr(ctx, f'random formulas order={order} autoref={autoref}', N, order)
+    aged = (not autoref) and ctx.rng.random() < 0.5
+    M = Mgr(ctx, f'random formulas order={order} autoref={autoref} aged={aged}', N, order, aged=aged)
     rng = ctx.rng
     s = M.s
     A = None
@@ -284,6 +287,47 @@ def random_stream(ctx, order, ntrees, autoref):
     ctx.sample(dict(stream=s.label, first_lines=s.lines[:6]))
 
 
+def subst_stream(ctx, order, nbodies, autoref):
+    """`\\S new/old, ...: body` is a SIMULTANEOUS substitution: every list of two or three pairs
+    over the variables (swaps, rotations, chains, several variables to one), written in both
+    orders, over arbitrary bodies (held nodes by `@` and small formulas)"""
+    import itertools
+    rng = ctx.rng
+    M = Mgr(ctx, f'substitution lists order={order} autoref={autoref}', N, order)
+    s = M.s
+    A = None
+    bodies = [('bin', 'and', '/\\', ('var', 0), ('not', '~', ('var', 1))),
+              ('bin', 'or', '\\/', ('bin', 'and', '&', ('var', 0), ('var', 1)), ('not', '!', ('var', 2)))]
+    if autoref:
+        A = 'a0'
+        s.op(A, 'new', {v: l for v, l in zip(range(N), order)})
+        bodies += [rand_tree(rng, 3, []) for _ in range(nbodies)]
+    else:
+        for _ in range(nbodies):
+            t = rng.getrandbits(1 << N)
+            u = M.build(t)
+            if u is not None and abs(u) != 1:
+                M.op('incref', u)
+                bodies.append(('at', u, t))
+    maps = []
+    for img in itertools.product([None] + list(range(N)), repeat=N):
+        d = {j: y for j, y in enumerate(img) if y is not None}
+        if len(d) >= 2:
+            maps.append(d)
+    for body in bodies:
+        for d in maps:
+            items = list(d.items())
+            for it in (items, items[::-1]):
+                tree = ('s', dict(it), body)
+                e = value(tree)
+                sp = spell(tree, rng, False)
+                check(ctx, M, sp, e, 'substitution list', autoref=A)
+                ctx.case(('subst', order, tuple(sp)), e not in (0, FULL))
+                ctx.count('subst-list')
+    M.check_table('C05:table')
+    ctx.sample(dict(stream=s.label, first_lines=s.lines[:6]))
+
+
 SEPS = ['', '', ' ', '  ', '\t', '\n', ' \n ', ' (* c *) ', '(**)', ' \\* to the end\n', '(* a \\* b *)']
 
 
@@ -314,7 +358,8 @@ def text_stream(ctx, order, ntrees):
     """raw text: spacing, both comment forms, glued tokens; tokens, syntax tree, result and
     state compared with the model's character-level lexer"""
     from ..impl import Text
-    M = Mgr(ctx, f'raw text order={order}', N, order)
+    aged = ctx.rng.random() < 0.5
+    M = Mgr(ctx, f'raw text order={order} aged={aged}', N, order, aged=aged)
     rng = ctx.rng
     s = M.s
     for _ in range(ntrees):
@@ -364,3 +409,6 @@ def run(ctx):
         random_stream(ctx, order, 6 if q else 60, autoref=True)
     for order in (orders[:2] if q else orders):
         text_stream(ctx, order, 25 if q else 300)
+    for order in (rng.sample(orders, 2) if q else orders):
+        subst_stream(ctx, order, 2 if q else 6, autoref=False)
+    subst_stream(ctx, rng.choice(orders), 1 if q else 4, autoref=True)
